@@ -1,87 +1,192 @@
-"""pyvc.polyid -- decide rational-function identities  a == b  by cross-multiplication and z3's
-sum-of-monomials normal form.  Sound under the side condition that every denominator is non-zero,
-which the caller establishes separately (the poison flag `u` of the operands collects `den == 0`
-for every division executed, and `Not(u)` is its own conjunct of the obligation)."""
+"""pyvc.polyid -- decide rational-function identities  a == b  by exact polynomial normal form.
+
+The z3 term is converted to a quotient of sparse multivariate polynomials over Q whose
+indeterminates are the *atoms* of the term (uninterpreted constants, If-terms, UF applications).
+Square roots are reduced:  sqrt(q) for a rational constant q is rewritten to a rational multiple of
+prod sqrt(p) over primes p, with sqrt(p)^2 -> p;  sqrt(t)^2 -> t for a symbolic argument t.
+
+a == b is reported valid iff num_a*den_b - num_b*den_a is the zero polynomial.  Sound under the side
+conditions that every denominator is non-zero and every sqrt argument non-negative; both are
+collected in the poison flag `u` of the operands and proved separately as the `Not(u)` conjunct.
+"""
+from fractions import Fraction
+from math import isqrt
+
 import z3
 
-_ONE = z3.RealVal(1)
+MAX_TERMS = 20000
 
 
-def _is_one(t):
-    return z3.is_rational_value(t) and t.numerator_as_long() == 1 and t.denominator_as_long() == 1
+class TooBig(Exception):
+    pass
 
 
-def _mul(a, b):
-    if _is_one(a):
-        return b
-    if _is_one(b):
-        return a
-    return a * b
+def _padd(a, b, sign=1):
+    out = dict(a)
+    for m, c in b.items():
+        v = out.get(m, 0) + sign * c
+        if v == 0:
+            out.pop(m, None)
+        else:
+            out[m] = v
+    return out
 
 
-def ratform(t, memo=None):
-    """(num, den) with t == num/den wherever den != 0; If/UF/non-arithmetic sub-terms are opaque atoms"""
-    if memo is None:
-        memo = {}
-    key = t.get_id()
-    if key in memo:
-        return memo[key]
-    r = None
-    if z3.is_app(t) and t.sort_kind() in (z3.Z3_REAL_SORT, z3.Z3_INT_SORT):
-        k = t.decl().kind()
-        ch = t.children()
-        if k == z3.Z3_OP_ADD:
-            n, d = ratform(ch[0], memo)
-            for c in ch[1:]:
-                n2, d2 = ratform(c, memo)
-                if d.eq(d2):
-                    n = n + n2
-                else:
-                    n, d = _mul(n, d2) + _mul(n2, d), _mul(d, d2)
-            r = (n, d)
-        elif k == z3.Z3_OP_SUB:
-            n, d = ratform(ch[0], memo)
-            for c in ch[1:]:
-                n2, d2 = ratform(c, memo)
-                if d.eq(d2):
-                    n = n - n2
-                else:
-                    n, d = _mul(n, d2) - _mul(n2, d), _mul(d, d2)
-            r = (n, d)
-        elif k == z3.Z3_OP_UMINUS:
-            n, d = ratform(ch[0], memo)
-            r = (-n, d)
-        elif k == z3.Z3_OP_MUL:
-            n, d = ratform(ch[0], memo)
-            for c in ch[1:]:
-                n2, d2 = ratform(c, memo)
-                n, d = _mul(n, n2), _mul(d, d2)
-            r = (n, d)
-        elif k == z3.Z3_OP_DIV:
-            n1, d1 = ratform(ch[0], memo)
-            n2, d2 = ratform(ch[1], memo)
-            r = (_mul(n1, d2), _mul(d1, n2))
-        elif k == z3.Z3_OP_TO_REAL:
-            r = (t, _ONE)
-    if r is None:
-        r = (t, _ONE)
-    memo[key] = r
-    return r
+def _mmul(m1, m2):
+    if not m1:
+        return m2
+    if not m2:
+        return m1
+    d = dict(m1)
+    for k, e in m2:
+        d[k] = d.get(k, 0) + e
+    return tuple(sorted(d.items()))
+
+
+class Normalizer:
+    def __init__(self):
+        self.memo = {}
+        self.atoms = {}  # key -> z3 term
+        self.sqrt_arg = {}  # atom key -> polynomial of its argument (for reduction s^2 -> arg)
+        self.prime_atoms = {}
+
+    # ---- polynomial helpers with radical reduction
+    def pmul(self, a, b):
+        if len(a) * len(b) > MAX_TERMS:
+            raise TooBig()
+        out = {}
+        for m1, c1 in a.items():
+            for m2, c2 in b.items():
+                m = _mmul(m1, m2)
+                c = c1 * c2
+                # reduce squares of sqrt atoms
+                for mono, coef in self._reduce(m, c).items():
+                    v = out.get(mono, 0) + coef
+                    if v == 0:
+                        out.pop(mono, None)
+                    else:
+                        out[mono] = v
+        if len(out) > MAX_TERMS:
+            raise TooBig()
+        return out
+
+    def _reduce(self, m, c):
+        """rewrite powers >= 2 of sqrt atoms"""
+        for i, (k, e) in enumerate(m):
+            if e >= 2 and k in self.sqrt_arg:
+                rest = m[:i] + (((k, e % 2),) if e % 2 else ()) + m[i + 1:]
+                base = {tuple(sorted(rest)): c}
+                arg = self.sqrt_arg[k]
+                p = base
+                for _ in range(e // 2):
+                    p = self.pmul(p, arg)
+                return p
+        return {m: c}
+
+    def atom(self, t):
+        k = ("a", t.get_id())
+        self.atoms[k] = t
+        return {((k, 1),): Fraction(1)}
+
+    def const(self, fr):
+        return {(): fr} if fr != 0 else {}
+
+    def sqrt_const(self, fr):
+        """sqrt(a/b) = sqrt(a*b)/b = k/b * prod_{p | m} sqrt(p),  a*b = k^2 m, m squarefree"""
+        n = fr.numerator * fr.denominator
+        if n < 0:
+            return None
+        if n == 0:
+            return {}
+        k, mfree, primes = 1, 1, []
+        x, p = n, 2
+        while p * p <= x:
+            cnt = 0
+            while x % p == 0:
+                x //= p
+                cnt += 1
+            k *= p ** (cnt // 2)
+            if cnt % 2:
+                primes.append(p)
+            p += 1
+        if x > 1:
+            primes.append(x)
+        mono = []
+        for p in primes:
+            key = ("p", p)
+            self.sqrt_arg[key] = self.const(Fraction(p))
+            mono.append((key, 1))
+        return {tuple(sorted(mono)): Fraction(k, fr.denominator)}
+
+    # ---- conversion
+    def rat(self, t):
+        key = t.get_id()
+        if key in self.memo:
+            return self.memo[key]
+        r = self._rat(t)
+        self.memo[key] = r
+        return r
+
+    def _rat(self, t):
+        one = {(): Fraction(1)}
+        if z3.is_rational_value(t):
+            return self.const(Fraction(t.numerator_as_long(), t.denominator_as_long())), one
+        if z3.is_int_value(t):
+            return self.const(Fraction(t.as_long())), one
+        if z3.is_app(t) and t.sort_kind() in (z3.Z3_REAL_SORT, z3.Z3_INT_SORT):
+            k = t.decl().kind()
+            ch = t.children()
+            if k in (z3.Z3_OP_ADD, z3.Z3_OP_SUB):
+                n, d = self.rat(ch[0])
+                sign = 1 if k == z3.Z3_OP_ADD else -1
+                for c in ch[1:]:
+                    n2, d2 = self.rat(c)
+                    if d == d2:
+                        n = _padd(n, n2, sign)
+                    else:
+                        n, d = _padd(self.pmul(n, d2), self.pmul(n2, d), sign), self.pmul(d, d2)
+                return n, d
+            if k == z3.Z3_OP_UMINUS:
+                n, d = self.rat(ch[0])
+                return {m: -c for m, c in n.items()}, d
+            if k == z3.Z3_OP_MUL:
+                n, d = self.rat(ch[0])
+                for c in ch[1:]:
+                    n2, d2 = self.rat(c)
+                    n, d = self.pmul(n, n2), (self.pmul(d, d2) if (d != one or d2 != one) else one)
+                return n, d
+            if k == z3.Z3_OP_DIV:
+                n1, d1 = self.rat(ch[0])
+                n2, d2 = self.rat(ch[1])
+                return self.pmul(n1, d2), self.pmul(d1, n2)
+            if k == z3.Z3_OP_TO_REAL:
+                return self.atom(t), one
+            if k == z3.Z3_OP_UNINTERPRETED and t.decl().name() == "sqrt" and len(ch) == 1:
+                arg = ch[0]
+                if z3.is_rational_value(arg):
+                    p = self.sqrt_const(Fraction(arg.numerator_as_long(), arg.denominator_as_long()))
+                    if p is not None:
+                        return p, one
+                an, ad = self.rat(arg)
+                a = self.atom(t)
+                if ad == one:
+                    self.sqrt_arg[("a", t.get_id())] = an
+                return a, one
+        return self.atom(t), one
 
 
 def is_identity(eq):
-    """eq: z3 term `a == b` over reals.  True iff num_a*den_b - num_b*den_a normalises to 0."""
+    """eq: z3 term `a == b` over reals.  True iff the cross-multiplied difference is the zero polynomial."""
     if not (z3.is_app(eq) and eq.decl().kind() == z3.Z3_OP_EQ):
         return False
     a, b = eq.children()
     if a.sort_kind() != z3.Z3_REAL_SORT:
         return False
-    memo = {}
-    na, da = ratform(a, memo)
-    nb, db = ratform(b, memo)
-    diff = _mul(na, db) - _mul(nb, da)
+    N = Normalizer()
     try:
-        s = z3.simplify(diff, som=True)
-    except z3.Z3Exception:
+        na, da = N.rat(a)
+        nb, db = N.rat(b)
+        diff = _padd(N.pmul(na, db), N.pmul(nb, da), -1)
+    except (TooBig, RecursionError):
         return False
-    return z3.is_rational_value(s) and s.numerator_as_long() == 0
+    return not diff
